@@ -12,7 +12,9 @@ sys.path.insert(0, HERE)
 from harness import Resource, plainify  # noqa: E402
 
 NESTED = [{"a": [1, {"b": [2]}]}, [1, [2, {"c": 3}], {"d": [4]}], {"x": {"y": {"z": [1]}}}, [[1], [2]], {"k": []}, [{"m": {}}],
-          [1, {"a": [1]}, [2], 3]]
+          [1, {"a": [1]}, [2], 3],
+          # flat containers (a nested node built from one could adopt the caller's object instead of copying it)
+          {"p": 1, "q": "s"}, [1, 2]]
 
 
 def walk_mutate(v):
@@ -41,9 +43,28 @@ def scenarios(kind):
     return out
 
 
-def check(cname, op, i):
+def check(cname, op, i, buffered=False):
+    """buffered=True: the same scenario inside `with x.buffered:` (no reload from the resource hides an alias)."""
+    if buffered:
+        return _check_buffered(cname, op, i)
+    return _check(cname, op, i, None)
+
+
+def _check_buffered(cname, op, i):
+    import contextlib
+    holder = {}
+
+    @contextlib.contextmanager
+    def enter(x):
+        with x.buffered:
+            yield
+    return _check(cname, op, i, enter)
+
+
+def _check(cname, op, i, enter):
     kind = "dict" if "Dict" in cname else "list"
     tmp = tempfile.mkdtemp(prefix="pyvc_c16_")
+    stack = None
     try:
         res = Resource(cname, tmp)
         val = copy.deepcopy(NESTED[i])
@@ -53,10 +74,18 @@ def check(cname, op, i):
         else:
             x.reset([{"q": [0]}])
 
+        if enter is not None:
+            import contextlib
+            stack = contextlib.ExitStack()
+            stack.enter_context(enter(x))
+
         def expect_unchanged(what, before_mem, before_disk):
             mem, disk = plainify(x()), res.read()
             if mem != before_mem:
                 return f"{op}: {what} changed the collection: {before_mem!r} -> {mem!r}"
+            if enter is not None:
+                stack.close()           # leaving the buffered context writes the (unchanged) content
+                disk, before_disk = res.read(), before_mem
             if disk != before_disk:
                 return f"{op}: {what} changed the resource: {before_disk!r} -> {disk!r}"
             return None
@@ -73,7 +102,23 @@ def check(cname, op, i):
                      "slice": lambda: x.__setitem__(slice(0, 1), [val])}[op]()
             m, d = plainify(x()), res.read()
             walk_mutate(val)
-            return expect_unchanged("mutating the argument afterwards", m, d)
+            msg = expect_unchanged("mutating the argument afterwards", m, d)
+            if msg:
+                return msg
+            # the other direction: mutating the collection through the stored child leaves the caller's object alone
+            arg_before = copy.deepcopy(val)
+            try:
+                child = x["k"] if kind == "dict" else x[0]
+                if hasattr(child, "_to_base"):
+                    if isinstance(plainify(child()), dict):
+                        child["__col__"] = 1
+                    else:
+                        child.append("__col__")
+            except (KeyError, IndexError):
+                pass
+            if val != arg_before:
+                return f"{op}: mutating the collection changed the caller's object: {arg_before!r} -> {val!r}"
+            return None
         if op == "ctor":
             p2 = os.path.join(tmp, "ctor")
             os.makedirs(p2)
@@ -148,6 +193,11 @@ def check(cname, op, i):
             return None
         return None
     finally:
+        if stack is not None:
+            try:
+                stack.close()
+            except Exception:       # noqa: BLE001
+                pass
         shutil.rmtree(tmp, ignore_errors=True)
 
 
@@ -158,6 +208,13 @@ def search(cname):
         cases += 1
         try:
             msg = check(cname, op, i)
+            if msg is None and "Buffered" in cname and op in ("setitem", "setdefault", "update", "append", "insert", "extend",
+                                                              "iadd", "reset", "slice"):
+                cases += 1
+                msg = check(cname, op, i, buffered=True)
+                if msg:
+                    return {"found": True, "cases": cases, "message": msg,
+                            "scenario": {"class": cname, "op": op, "value": i, "buffered": True}}
         except Exception as e:      # noqa: BLE001
             msg = None
             return {"found": False, "cases": cases, "error": f"{type(e).__name__}: {e} in {op} #{i}"}
@@ -173,7 +230,7 @@ def main():
     if sys.argv[1] == "run":
         sc = json.load(open(sys.argv[2]))
         sc = sc.get("scenario", sc)
-        msg = check(sc["class"], sc["op"], sc["value"])
+        msg = check(sc["class"], sc["op"], sc["value"], buffered=bool(sc.get("buffered")))
         if msg:
             print("FAILS:", msg)
             return 1
